@@ -61,7 +61,8 @@ IsWaitKind(c) == c.kind \in {"blocking", "deadline"}
 
 (* ---- reasons that justify a refusal (C13 "not before its bound", C12 full backlog) -------- *)
 Justified(c, s, p, t) ==
-  \/ s.cancelled[p] /\ (IsWaitKind(c) \/ c.evictctx)
+  \/ c.kind = "default" /\ Held(c, s) >= c.limit      \* a plain limiter refuses exactly when the limit is held
+  \/ c.kind # "default" /\ s.cancelled[p] /\ (IsWaitKind(c) \/ c.evictctx)
   \/ c.kind = "deadline" /\ t >= c.deadline
   \/ c.kind = "queue" /\ s.since[p] >= 0 /\ c.qtimeout > 0 /\ t >= s.since[p] + c.qtimeout
   \/ c.kind = "queue" /\ s.since[p] < 0
@@ -158,10 +159,10 @@ AfterObs(c, s0, o) ==
 Soft(c, s, o) ==
   IF ~StableObs(o, c) THEN {}
   ELSE
-    {<<"lostwake", p>> : p \in {q \in Asleep(o, c) : Held(c, s) < c.limit}}
+    {<<"lostwake", p>> : p \in {q \in Asleep(o, c) : c.kind # "default" /\ Held(c, s) < c.limit}}
     \cup {<<"bound", p>> : p \in {q \in Asleep(o, c) :
             \/ (c.kind = "deadline" /\ o.t >= c.deadline)
-            \/ (s.cancelled[q] /\ (IsWaitKind(c) \/ c.evictctx))
+            \/ (c.kind # "default" /\ s.cancelled[q] /\ (IsWaitKind(c) \/ c.evictctx))
             \/ (c.kind = "queue" /\ c.qtimeout > 0 /\ s.since[q] >= 0 /\ o.t >= s.since[q] + c.qtimeout)}}
     \cup (IF c.kind = "queue" /\ o.q >= 0 /\ o.q # Cardinality(Asleep(o, c)) THEN {<<"backlog", "size">>} ELSE {})
     \cup (IF c.kind = "queue" /\ Cardinality(Asleep(o, c)) > c.qmax THEN {<<"backlog", "over">>} ELSE {})
